@@ -126,7 +126,7 @@ impl RoomNode {
 
         let mut admin_edges = Edge::get_edges(id, ROOM_ADMIN_FIELD_SHORT, conn)?;
         //user insertion order is mandatory
-        admin_edges.sort_by(|a, b| b.cdate.cmp(&a.cdate));
+        admin_edges.sort_by(|a, b| a.cdate.cmp(&b.cdate));
 
         let mut admin_nodes = Vec::new();
         for edge in &admin_edges {
@@ -312,7 +312,7 @@ impl AuthorisationNode {
         let mut last_modified = node.mdate;
         let mut right_edges = Edge::get_edges(id, AUTH_RIGHTS_FIELD_SHORT, conn)?;
         //rights insertion must respect must be done in the right order
-        right_edges.sort_by(|a, b| b.cdate.cmp(&a.cdate));
+        right_edges.sort_by(|a, b| a.cdate.cmp(&b.cdate));
 
         let mut right_nodes = Vec::new();
         for edge in &right_edges {
@@ -325,7 +325,7 @@ impl AuthorisationNode {
 
         let mut user_edges = Edge::get_edges(id, AUTH_USER_FIELD_SHORT, conn)?;
         //user insertion order is mandatory
-        user_edges.sort_by(|a, b| b.cdate.cmp(&a.cdate));
+        user_edges.sort_by(|a, b| a.cdate.cmp(&b.cdate));
 
         let mut user_nodes = Vec::new();
         for edge in &user_edges {
@@ -338,7 +338,7 @@ impl AuthorisationNode {
 
         let mut user_admin_edges = Edge::get_edges(id, AUTH_USER_ADMIN_FIELD_SHORT, conn)?;
         //user insertion order is mandatory
-        user_admin_edges.sort_by(|a, b| b.cdate.cmp(&a.cdate));
+        user_admin_edges.sort_by(|a, b| a.cdate.cmp(&b.cdate));
 
         let mut user_admin_nodes = Vec::new();
         for edge in &user_admin_edges {
@@ -673,7 +673,12 @@ pub fn prepare_new_room(room_node: &RoomNode) -> Result<()> {
         match room.is_admin(&auth.node.verifying_key, auth.node.mdate) {
             true => {
                 for user in &auth.user_nodes {
-                    if !room.is_admin(&user.node.verifying_key, user.node.mdate) {
+                    let user_admin = match room.authorisations.get(&auth.node.id) {
+                        Some(authorisation) => authorisation
+                            .can_admin_users(&user.node.verifying_key, user.node.mdate),
+                        None => false,
+                    };
+                    if !user_admin && !room.is_admin(&user.node.verifying_key, user.node.mdate) {
                         return Err(Error::InvalidNode(
                             "New RoomNode Authorisation User not authorised".to_string(),
                         ));
@@ -909,7 +914,9 @@ fn prepare_auth_with_history(
 fn prepare_new_auth(room: &Room, new_auth: &AuthorisationNode) -> Result<()> {
     let authorisation = new_auth.parse()?;
     for new_user in &new_auth.user_nodes {
-        if !authorisation.can_admin_users(&new_user.node.verifying_key, new_user.node.mdate) {
+        if !authorisation.can_admin_users(&new_user.node.verifying_key, new_user.node.mdate)
+            && !room.is_admin(&new_user.node.verifying_key, new_user.node.mdate)
+        {
             return Err(Error::InvalidNode(
                 "RoomNode Authorisation new user is not authorised".to_string(),
             ));
